@@ -107,6 +107,11 @@ CHECKS = {
    text="A goroutine calls Backup(dir) in a loop while 3-8 goroutines write and read (both RAM index modes and sparse mode, FileIO and MMap, 1-2 databases, race-instrumented). A gate hook inside Backup's read transaction records how many writers had acquired the lock when the copy started; the copy is opened with the same options and fully observed; the backup event is placed at that point of the linearised history and TLC (NutsTrace!TrCopyObs) accepts it iff Open succeeded and the observation equals Replay(log) there - the state committed when the backup's read transaction started. Lock.tla (Backup as a two-step reader, SnapshotStable) is model-checked.",
    note="Trusts TLC, the hooks and the recording wrapper. Backups taken while Merge runs are not generated (Merge is unsynchronised, C17).",
    technique="TLA+ trace validation of linearised concurrent histories with Backup events + bounded model checking of Lock.tla"),
+ "C21": dict(
+   cat="model_checking", design="DESIGN.md section 6 C21",
+   text="Specification -> code, exhaustive over the enumerated domain: Codec.tla enumerates record templates (data entries: every combination of bucket/key/value size in {0,1,7} plus flag, status, structure code, timestamp, TTL and tx id varied over boundary values one - thorough: two - at a time; sparse root-index records; bucket metadata) and, for each, the unmutated record, every single-bit flip of its stored bytes and every truncation (22 255 reads quick). The replayer builds each record with the library's encoder, stores it through the library's writer (DataFile with FileIO and MMap, BPTreeRootIdx.Persistence), alters the stored bytes, reads it back through DataFile.ReadAt / ReadBPTreeRootIdxAt / ReadBucketMeta and records the fields written and the fields read. TLC (Codec!Admitted) accepts: unmutated -> a record with exactly the written fields; mutated -> an error, 'absent', or a record with exactly the written fields.",
+   note="The family's weak spot (DESIGN.md): TLA+ contributes the complete enumeration and the acceptance rule, not the byte layout or CRC arithmetic. The quick tier skips flips in the two high-order bytes of size fields (each makes the reader allocate up to 4 GB); the thorough tier includes them. Multi-bit corruption is not enumerated.",
+   technique="TLC-enumerated (template, mutation) pairs (Codec.tla) replayed into the code + TLA+ trace validation of written vs. read fields"),
  "C01": dict(
    cat="model_checking", design="DESIGN.md section 6 C01",
    text="Trace validation: seeded random KV histories (multi-bucket, TTL on both sides of expiry, segments of 128-512 bytes so nearly every transaction rotates, reopen) are executed on the real library in HintKeyValAndRAMIdxMode and HintKeyAndRAMIdxMode x FileIO and MMap, every call is recorded, and TLC accepts the trace only if every Get/GetAll/RangeScan/PrefixScan/PrefixSearchScan result equals the KVSpec ordered-map-with-TTL result on the specification state (Nuts.tla). The API-grain design is model-checked exhaustively for a small universe (NutsMC_kv.cfg).",
